@@ -644,6 +644,12 @@ struct Trans {
 }
 
 fn transition(cfg: &Cfg, mode: Mode, data: &[u8], hist: &[Step], op: &ROp, prefix: &[(u32, u32)]) -> Trans {
+    let describe = || {
+        let mut h2 = hist.to_vec();
+        h2.push(Step { op: op.clone(), choices: prefix.to_vec() });
+        (format!("reader/{}", op_class(op)), format!("after {} earlier operation(s), {op:?} [{:?}, stream of {} bytes, chunk {}]", hist.len(), cfg.ctor, cfg.n, cfg.chunk0), replay_value(cfg, mode, &h2))
+    };
+    let _guard = mc_core::abortguard::enter(&describe);
     let base_len = forced_of(hist).len();
     let mut w = replay(cfg, mode, data, hist, prefix).expect("replay");
     let before = snapshot(&w);
@@ -889,6 +895,11 @@ pub fn replay_file(v: &Value) -> (bool, String) {
                 violated = true;
                 text.push_str(&format!("      {cat}: {what}\n"));
             }
+        }
+        if t.problems.iter().any(|(c, _)| *c == "safety") {
+            // the object is in a state in which further safe calls may be undefined behaviour
+            text.push_str("      (history not continued beyond the broken SAFETY invariant)\n");
+            break;
         }
     }
     (violated, text)
